@@ -211,7 +211,7 @@ def h_adaptive_scale(ctx, N, layout):
         s = scale[c]
         ctx.output('scale%d' % c, s)
         # split in two so that the polynomial identity is decided without the square-root constant
-        ctx.claim('accumulated_M2_over_n_%d_is_population_variance' % c, close(m2n[c], var, 1e-7))
+        ctx.claim_poly('accumulated_M2_over_n_%d_is_population_variance' % c, m2n[c], var)
         if core._is_special(s):
             ctx.claim('scale_%d_is_sqrt_of_M2_over_n' % c, False)
         else:
